@@ -20,7 +20,8 @@ BUILD_TARGETS = ["DfolsVerif.Driver.RadiusDrv", "DfolsVerif.Driver.IterDrv"]
 THEOREMS = ["Dfols.C18.radius_src_eq", "Dfols.C18.applyOp_inv", "Dfols.C18.C18_radii", "Dfols.C18.C18_rho_nonincreasing",
             "Dfols.C18.C18_delta_cap_partial", "Dfols.C18.C18_reduce_progress", "Dfols.C18.C18_no_stall",
             "Dfols.C18.C18_table_shape", "Dfols.C18.gen_reduceRho_eq", "Dfols.C18.gen_trUpdate_eq", "Dfols.C18.gen_geomDelta_eq",
-            "Dfols.C18.gen_safetyDelta_eq", "Dfols.C18.applyOpR_inv", "Dfols.C18.C18_radii_rounded", "Dfols.C18.gridRounding_consts"]
+            "Dfols.C18.gen_safetyDelta_eq", "Dfols.C18.applyOpR_inv", "Dfols.C18.C18_radii_rounded", "Dfols.C18.gridRounding_consts",
+            "Dfols.C18.C18_src_diag_sites", "Dfols.C18.C18_diag_rectangular"]
 TRUSTED_EXTRA = [
     "radius theorems: exact arithmetic (C18_radii) and ANY monotone idempotent rounding with rnd x <= 2x after every *, /, sqrt, literal (C18_radii_rounded); that IEEE round-to-nearest satisfies these laws absent overflow/underflow is assumed, not proved; hypothesis 1/250 <= alpha1 <= 1 (the table accepts [0,1]: recorded)",
     "delta <= 1e10 proved for tau = 1 only (with a regulariser delta is divided by tau <= 1)",
@@ -33,6 +34,8 @@ ALLOW = ("bounds", "scaling", "proj", "avg", "soft", "hard", "npt", "growing", "
 
 def pre_build(ctx):
     gen_radius.regenerate(ctx)
+    import gen_diag
+    gen_diag.regenerate(ctx)
     ctx.cov["translated_kernels"] = gen_kernels.regenerate(ctx)
 
 
@@ -95,7 +98,7 @@ def mutate(rng, prob, kw, d):
 
 def _runs(ctx):
     if not hasattr(ctx, "_runs"):
-        ctx._runs = ss.run_trace_property(ctx, "count", 200, 2500, 1818, None, allow=ALLOW, mutate_cfg=mutate, alarm=60.0)
+        ctx._runs = ss.run_trace_property(ctx, "count", 200, 2500, 1818, None, allow=ALLOW, mutate_cfg=mutate, alarm=60.0, patient=True)
     return ctx._runs
 
 
@@ -212,6 +215,37 @@ def correspondence(ctx):
             if drej <= 3:
                 ctx.broke("correspondence:DiagAcc-rejects-real-trace", {"seed": seed, "config": ss.describe(d), "lean": rep})
     ctx.cov["diag_acceptor"] = {"traces": len(dlines), "rejected": drej, "rows": drows}
+    # the DiagnosticInfo state machine (Proofs/DiagTable.lean, on the columns generated from __init__): the real sequence of
+    # method calls of every run with the table switched on must run through without a failed update, and end with as many rows
+    # as the real table, rectangular, iters_total = 0..rows-1
+    import gen_diag
+    sets = {}
+    for (m, k, op) in gen_diag.collect()["ops"]:
+        if op == "set-last":
+            sets.setdefault(m, []).append(k)
+    olines, ometa = [], []
+    for (seed, prob, kw, d, t, fault) in metas:
+        if t.diag_ops:
+            toks = []
+            for m in t.diag_ops:
+                toks += ["s"] if m == "save_info_from_control" else ["u:" + k for k in sets.get(m, ["<unknown:%s>" % m])]
+            olines.append("dops " + " ".join(toks))
+            ometa.append((seed, d, t, kw))
+    oout = core.run_driver(olines, main="IterMain.lean") if olines else []
+    obad = 0
+    for (seed, d, t, kw), rep in zip(ometa, oout):
+        df = t.result.diagnostic_info if t.result is not None else None
+        ok = rep.startswith("ok") and "rect=true" in rep and "its=true" in rep
+        if ok and df is not None:
+            nr = int(rep.split()[1].split("=")[1])
+            ok = (nr == len(df)) and list(df["iters_total"]) == list(range(nr)) and int(rep.split()[3].split("=")[1]) == len(df.columns) + 2 - int(bool((kw.get("user_params") or {}).get("logging.save_xk"))) - int(bool((kw.get("user_params") or {}).get("logging.save_rk")))
+        if not ok:
+            obad += 1
+            if obad <= 3:
+                ctx.broke("correspondence:DiagTable-state-machine", {"seed": seed, "config": ss.describe(d), "lean": rep,
+                                                                      "table_rows": None if df is None else len(df),
+                                                                      "table_columns": None if df is None else len(df.columns)})
+    ctx.cov["diag_state_machine"] = {"runs": len(olines), "disagreements": obad, "method_calls": sum(len(t.diag_ops) for (_s, _d, t, _k) in ometa)}
     out = core.run_driver(lines, main="RadiusMain.lean") if lines else []
     mism = [(l, o, w, wh) for l, o, w, wh in zip(lines, out, want, where) if o != w]
     ctx.cov["radius_correspondence"] = {"updates_compared": n, "mismatches": len(mism)}
@@ -299,7 +333,7 @@ def search(ctx):
     nrows = 0
     for (seed, prob, kw, d, t, fault) in metas:
         if isinstance(t.exception, core.Alarm):
-            ctx.fail("C18:does-not-terminate|" + so.context_tags(t, d), "run hit the wall-clock alarm", {"seed": seed, "config": ss.describe(d)})
+            ctx.fail("C18:does-not-terminate|" + so.context_tags(t, d), "run did not end within %d s of CPU time" % ss.SLOW_LIMIT, {"seed": seed, "config": ss.describe(d)})
             continue
         if t.result is not None and t.result.diagnostic_info is not None:
             nrows += len(t.result.diagnostic_info)
